@@ -1,5 +1,7 @@
 //! C18: text::match_words / edit::edited_words against the model.
-//! input  = (a b ic la lb)  a, b as code points; la/lb = lower-cased words (oracle; only when ic)
+//! input  = (a b ic la lb)  a, b as code points; la/lb = lower-cased words (`str::to_lowercase` of the running
+//!          std; only when ic).  Since the UCD extension the model lower-cases the raw words itself
+//!          (UCD_Model.to_lowercase); la/lb are a cross-check inside `agree`.
 //! output = (m na nb mx ea eb)
 use text_utils::edit::edited_words;
 use text_utils::text::match_words;
@@ -13,6 +15,14 @@ struct C18;
 const WORDS: &[&str] = &[
     "x", "X", "y", "x", "X", "y", "Y", "xy", "Xy", "ß", "SS", "İ", "i\u{307}", "ΑΣ", "ασ", "ας", "a\u{a0}b",
     "a\u{b}b", "\u{2003}", "\u{85}", "é", "É", "e\u{301}",
+];
+/// Final_Sigma contexts and other context / multi-character lower-casing (the `sigma` stream):
+/// Σ alone, word-final, before a letter, before / after case-ignorable characters (' . : combining marks,
+/// modifier letters, soft hyphen), after a digit, doubled, after a titlecase letter, İ, Kelvin / Angstrom signs
+const SIGMA: &[&str] = &[
+    "Σ", "ΑΣ", "ΑΣΑ", "ΣΑ", "ΑΣ.", "Α'Σ", "Α\u{301}Σ", "ΑΣ\u{301}", "ΑΣ\u{301}Α", "1Σ", "ΑΣΣ", "ΣΣ", "aΣ", "Σa",
+    "ǅΣ", "ʰΣ", "Αʰ\u{ad}Σ", "ΑΣ:Α", "ΑΣ:1", "ας", "ασ", "σ", "ς", "ΑΣ\u{200d}", ".Σ", "Α.Σ.", "İΣ", "KΣ", "Å",
+    "å", "K", "k", "ΑΣ\u{345}", "\u{345}Σ", "ᾈΣ",
 ];
 const SEPS: &[&str] = &[" ", " ", " ", "  ", "\t", "\n", "\r\n", "\u{c}", " \t ", "\r"];
 
@@ -80,6 +90,26 @@ fn mutate(rng: &mut Rng, a: &[String], small: bool) -> Vec<String> {
         }
     }
     b
+}
+
+/// The probe words around code point `c` — keep in step with tools/gen_ucd.py:lc_probe.
+///   c        the mapping of c (one or several characters)
+///   c Σ      Σ after c at the start of the word: final iff c is cased and not case-ignorable
+///   A c Σ    after a cased letter: final iff c is case-ignorable, or cased
+///   A Σ c    before c: final iff c is case-ignorable or not cased
+fn lc_probe(c: char) -> String {
+    format!("{c} {c}Σ A{c}Σ AΣ{c}")
+}
+
+fn lc_probe_text(cs: impl Iterator<Item = u32>) -> String {
+    let mut s = String::new();
+    for c in cs {
+        if let Some(ch) = char::from_u32(c) {
+            s.push_str(&lc_probe(ch));
+            s.push(' ');
+        }
+    }
+    s
 }
 
 fn lowered(s: &str) -> Val {
@@ -197,6 +227,38 @@ impl Prop for C18 {
         }
         let stream = rng.below(100);
         let maxw = if tier == Tier::Thorough { 9 } else { 7 };
+        if rng.chance(8, 100) {
+            // lcprobe stream: the probe words around 16 uniformly random scalar values; the second text holds
+            // the probes of some of them again (so that the matching compares lower-cased probe words)
+            let cs: Vec<u32> = (0..16)
+                .map(|_| loop {
+                    let c = rng.below(0x110000) as u32;
+                    if char::from_u32(c).is_some() {
+                        break c;
+                    }
+                })
+                .collect();
+            let k = rng.below(5);
+            let a = lc_probe_text(cs.iter().copied());
+            let b = lc_probe_text(cs.iter().copied().skip(k).take(3));
+            return mk(&a, &b, rng.chance(9, 10));
+        }
+        if rng.chance(10, 100) {
+            // sigma stream: Final_Sigma contexts, second text a mutation / case flip of the first
+            let n = rng.below(maxw);
+            let a: Vec<String> = (0..n).map(|_| rng.pick(SIGMA).to_string()).collect();
+            let mut b = a.clone();
+            for w in b.iter_mut() {
+                match rng.below(4) {
+                    0 => *w = w.to_uppercase(),
+                    1 => *w = w.to_lowercase(),
+                    2 => *w = rng.pick(SIGMA).to_string(),
+                    _ => {}
+                }
+            }
+            let messy = rng.chance(1, 3);
+            return mk(&join(rng, &a, messy), &join(rng, &b, messy), rng.chance(4, 5));
+        }
         let (a, b) = if stream < 12 {
             // case-dense stream: non-ASCII case pairs and length-changing lower-casing
             const CASEW: &[&str] = &["é", "É", "İ", "i\u{307}", "y", "ß", "ẞ", "i"];
@@ -271,6 +333,15 @@ impl Prop for C18 {
                 }
             }
         }
+        // the lower-casing sweep: the probe words around ALL scalar values, 64 per case
+        let mut c = 0u32;
+        while c <= 0x10FFFF {
+            let a = lc_probe_text(c..c + 64);
+            if !a.is_empty() {
+                out.push(mk(&a, "", true));
+            }
+            c += 64;
+        }
         out
     }
 
@@ -319,6 +390,15 @@ impl Prop for C18 {
             }
         };
         let mut tags = vec![if ic { "ic".to_string() } else { "exact".to_string() }];
+        if ic {
+            let changed = |s: &str| s.split_ascii_whitespace().any(|w| w.to_lowercase() != w.to_ascii_lowercase());
+            if changed(&a) || changed(&b) {
+                tags.push("lc-nonascii".into());
+            }
+            if a.contains('Σ') || b.contains('Σ') {
+                tags.push("sigma".into());
+            }
+        }
         // non-trivial: both sides have >= 2 words, some but not all words are matched, and a word
         // (key) occurs twice on one side, so that several optimal matchings compete
         let keys = |s: &str| -> Vec<String> {
@@ -382,6 +462,28 @@ impl Prop for C18 {
                 if model != split || model != ch.is_ascii_whitespace() {
                     errs.push(format!("ASCII whitespace set differs at U+{c:04X}"));
                 }
+            }
+        }
+        // the model's tables must be the translation of the installed sources, and of the Unicode version of
+        // the std this harness is linked against
+        let md = env!("CARGO_MANIFEST_DIR");
+        for rel in ["..", "../.."] {
+            let root = std::path::Path::new(md).join(rel);
+            let p = root.join("tools/gen_ucd.py");
+            if p.exists() {
+                match std::process::Command::new("python3").arg(&p).arg("--check").output() {
+                    Ok(o) if o.status.success() => {}
+                    Ok(o) => errs.push(format!("tools/gen_ucd.py --check: {}", String::from_utf8_lossy(&o.stdout).trim())),
+                    Err(e) => errs.push(format!("tools/gen_ucd.py --check could not run: {e}")),
+                }
+                let (x, y, z) = char::UNICODE_VERSION;
+                let want = format!("Definition std_unicode_version : N * N * N := ({x}, {y}, {z})%N.");
+                match std::fs::read_to_string(root.join("coq/theories/UCD_Table.v")) {
+                    Ok(t) if t.contains(&want) => {}
+                    Ok(_) => errs.push(format!("UCD_Table.v is not of the Unicode version {x}.{y}.{z} of the running std")),
+                    Err(e) => errs.push(format!("UCD_Table.v unreadable: {e}")),
+                }
+                break;
             }
         }
         errs
